@@ -119,6 +119,10 @@ func (v *authorizer) AddPolicy(policy Policy) {
 }
 
 func (v *authorizer) Authorize() error {
+	// from here on the world holds content of the token, whether or not the evaluation below
+	// succeeds: the authorizer can no longer be saved
+	v.dirty = true
+
 	// if we load facts from the verifier before
 	// the token's fact and rules, we might get inconsistent symbols
 	// token ements should first be converted to builder elements
@@ -143,7 +147,6 @@ func (v *authorizer) Authorize() error {
 	if err := v.world.Run(v.symbols); err != nil {
 		return err
 	}
-	v.dirty = true
 
 	var errs []error
 
@@ -282,10 +285,11 @@ func (v *authorizer) Authorize() error {
 }
 
 func (v *authorizer) Query(rule Rule) (FactSet, error) {
+	// an evaluation that fails half-way has added derived facts to the world all the same
+	v.dirty = true
 	if err := v.world.Run(v.symbols); err != nil {
 		return nil, err
 	}
-	v.dirty = true
 
 	facts := v.world.QueryRule(rule.convert(v.symbols), v.symbols)
 
